@@ -365,7 +365,7 @@ def wl_cuckoo(ctx, rng, case):
     import probables as P
     from probables.exceptions import CuckooFilterFullError
 
-    cfg = ck.gen_cfg(rng, small=rng.random() < 0.7)
+    cfg = ck.gen_cfg(rng, small=rng.random() < 0.7, allow_rate=False)
     keys = ck.gen_keys(rng, cfg, rng.randint(3, 12))
     if len(keys) < 2:
         return
